@@ -4,7 +4,7 @@ ENGINES = [
     {
         "name": "symx",
         "path": "/verif/symx",
-        "serves_properties": ["C01", "C02", "C03", "C04", "C05", "C06", "C07", "C08", "C09", "C12", "C13", "C16", "C17", "C18"],
+        "serves_properties": ["C01", "C02", "C03", "C04", "C05", "C06", "C07", "C08", "C09", "C12", "C13", "C16", "C17", "C18", "C19"],
         "kind_free_text": "own symbolic executor: geoh5py's real functions run under CPython with the module-global "
         "`np` (and, for file paths, `h5py`) rebound to z3-backed models; re-execution DFS forks on symbolic "
         "branches; obligations are z3 validity queries; counterexamples are replayed on real numpy/h5py",
@@ -244,6 +244,23 @@ CLAIMED["C09"] = _symx(
 )
 CLAIMED["C09"]["design_ref"] = "DESIGN.md section 12.14"
 
+CLAIMED["C19"] = _symx(
+    "C19",
+    "symx path exploration over single faults: the deleted item is a symbolic index into the list of items of a file written by "
+    "the library (one path per item, z3 feasibility), the deletion is done with real h5py, the real reader re-opens the file "
+    "behind the proxy; z3 validity of term-wise equality of every entity not described by the item (symbolic vertices and "
+    "values); counterexamples replayed on real numpy/h5py",
+    "bounded model checking, partial and weak: on one file (group, curve with float and referenced data, property group, metadata; "
+    "point set with data; symbolic vertices and float values) every single deletion of an attribute (project group, entities, "
+    "types), of the Root / Type / PropertyGroups / Color map / Value map links, of an empty child container or of a flat container "
+    "is explored (128 items): a file without an optional item opens, and every entity the item does not describe comes back with "
+    "the same class, parent, name, flags, geometry, values and property groups; for other items the reader may raise. The choice "
+    "of the fault is the only thing the solver decides besides the term-wise comparison.",
+    _SYMX_NOTE + "; the optional / mandatory classification of items (harness/c19.py OPTIONAL_ATTRS) is the harness author's reading "
+    "of the statement",
+)
+CLAIMED["C19"]["design_ref"] = "DESIGN.md section 12.15"
+
 _XH_NOTE = (
     "trusted: CrossHair 0.0.110 (symbolic execution of CPython code with z3) and its models of builtins; the harness "
     "functions call the real geoh5py kernels directly (no translation); holds only within the value bounds in the evidence"
@@ -310,7 +327,6 @@ NOT_APPLICABLE = {
     "C10": "immutability is delivered by h5py's read-only handle and the mode string; quantifier is over programs "
     "(~150 entry points), nothing value-level to solve",
     "C11": "handle lifecycle and exception-abort points of a with-block are h5py/OS behaviour",
-    "C19": "single-fault enumeration over links/attributes of real HDF5 files read by h5py: fault injection, nothing symbolic",
     "C20": "partner linkage is identity bookkeeping in metadata dictionaries persisted as JSON; configurations x "
     "histories over an object graph, no value-level kernel",
 }
